@@ -564,3 +564,26 @@ func init() {
 	}
 	pureExterns["("+sdkT+"Coin).AddAmount"] = true
 }
+
+func init() {
+	// codectypes.Any holding an AuctionI is modelled as the auction's union record (Kind 0 = nil / unpackable)
+	externs["github.com/cosmos/cosmos-sdk/codec/types.NewAnyWithValue"] = func(x *X, s *State, c *ssa.CallCommon, a []Val, call ssa.Value) (Val, bool) {
+		iv, ok := a[0].(Iface)
+		if !ok || iv.Kind == "" {
+			x.fail("NewAnyWithValue of %T", a[0])
+		}
+		rec := x.flat(s, iv)
+		return Tuple{rec, Er{sNot(sEq(iv.Kind, "0")), "906"}}, true
+	}
+	pureExterns["github.com/cosmos/cosmos-sdk/codec/types.NewAnyWithValue"] = true
+	externs[modTypes+".UnpackAuction"] = func(x *X, s *State, c *ssa.CallCommon, a []Val, call ssa.Value) (Val, bool) {
+		rec, ok := a[0].(St)
+		if !ok {
+			x.fail("UnpackAuction of %T", a[0])
+		}
+		k := tm(rec.F["Kind"])
+		okT := sOr(sEq(k, "1"), sEq(k, "2"))
+		return Tuple{x.auctionFromRecord(s, rec, sIte(okT, k, "0")), Er{okT, "907"}}, true
+	}
+	pureExterns[modTypes+".UnpackAuction"] = true
+}
